@@ -318,6 +318,19 @@ func init() {
 			}
 			return Scalar{errorsIs(e.st, a, b)}
 		},
+		// spawned("f$1"): a go statement running that function (literal) was executed on this path
+		"spawned": func(e *Env, args []ast.Expr) Value {
+			nv, ok := e.eval(args[0]).(Scalar)
+			if !ok || !nv.T.IsStr() {
+				fail("spec: spawned(\"name\")")
+			}
+			for _, ev := range e.st.events {
+				if ev == "go "+nv.T.S || strings.HasSuffix(ev, "."+nv.T.S) || strings.HasSuffix(ev, nv.T.S) && strings.HasPrefix(ev, "go ") {
+					return Scalar{True}
+				}
+			}
+			return Scalar{False}
+		},
 		// aliases(s, t): the slices s and t share their backing array
 		"aliases": func(e *Env, args []ast.Expr) Value {
 			a, ok1 := e.eval(args[0]).(Slice)
